@@ -121,6 +121,9 @@ def frame_check(op, ret, P, Q):
         return "refused call changed %s" % changed if changed else None
     if ret.startswith("ERR"):
         return None
+    if cmd in g.QUERY_CMDS:
+        extra = [s for s in changed if not (ret == "new%d" % s)]
+        return "a query changed %s" % extra if extra else None
 
     def one_removed(before, after):
         """after = before minus exactly one position -> removed element"""
@@ -303,51 +306,86 @@ def stage1(ctx, drv, mdl):
         cands += [l.strip() for l in open(corpus) if l.strip() and not l.startswith("#")]
     n_corpus = len(cands)
     exh = {}
+    pure = []           # sequences over R only: the histories among which representatives of the state classes are chosen
     for name, setup in g.START:
-        a = list(g.exhaustive(name, R, 2, F))              # 2 reduced ops, then every op form
-        exh["%s: R^2 x F" % name] = len(a)
+        a = list(g.exhaustive(name, R, 2, F))              # one reduced op, then every op form (mutators and queries)
+        exh["%s: R x F" % name] = len(a)
         cands += a
         n = 3 if (not quick or name == "tree") else 2
-        a = list(g.exhaustive(name, R, n))
-        exh["%s: R^%d" % (name, n)] = len(a)
+        a = [join_case("@" + name, [])] + [c for k in range(1, n + 1) for c in g.exhaustive(name, R, k)]
+        exh["%s: R^<=%d" % (name, n)] = len(a)
         cands += a
-        if not quick and name != "orphans":
+        pure += a
+        if not quick and name not in ("orphans", "residues"):
             a = list(g.exhaustive(name, g.reduced_ops4(), 4))
             exh["%s: R4^4" % name] = len(a)
             cands += a
+            pure += a
     n_exh = len(cands) - n_corpus
     nrand = 400 if quick else 6000
+    rnd = []
     for i in range(nrand):
         name, setup = g.START[i % len(g.START)]
-        cands.append(g.random_sequence(ctx.rng, name, ctx.rng.choice([10, 25, 60, 60])))
-    ctx.log("stage 1: %d candidate sequences (%d exhaustive, %d random), |R|=%d |F|=%d" % (len(cands), n_exh, nrand, len(R), len(F)))
+        rnd.append(g.random_sequence(ctx.rng, name, ctx.rng.choice([10, 25, 60, 60])))
+    ctx.log("stage 1: %d candidate sequences (%d exhaustive, %d random), |R|=%d |F|=%d" % (len(cands) + nrand, n_exh, nrand, len(R), len(F)))
 
-    # pass 1: the model says where a sequence leaves the claim (re-add to the current parent); cut there
-    m1 = run_sharded(lambda p: [mdl, p, "seq"], cands, ctx.workdir, "p1", HEADER)
     final, seen = [], set()
-    ncarve = 0
     model_line, recut = {}, []
-    for c, l in zip(cands, m1):
-        t = l.split()
-        if len(t) == 3 and t[1].startswith("carve=") and t[1] != "carve=-":
-            tag, ops = split_case(c)
-            c = join_case(tag, ops[:int(t[1][6:]) + 1])
-            ncarve += 1
-            if c not in seen:
+    stat = {"carve": 0}
+
+    def absorb(cs, lines):
+        """cut at the carve-out op (the model says where a sequence leaves the claim), dedupe"""
+        for c, l in zip(cs, lines):
+            t = l.split()
+            if not split_case(c)[1]:
+                continue                      # the bare start state: only a candidate representative
+            if len(t) >= 3 and t[1].startswith("carve=") and t[1] != "carve=-":
+                tag, ops = split_case(c)
+                c = join_case(tag, ops[:int(t[1][6:]) + 1])
+                stat["carve"] += 1
+                if c not in seen:
+                    seen.add(c)
+                    final.append(c)
+                    recut.append(c)
+            elif c not in seen:
                 seen.add(c)
                 final.append(c)
-                recut.append(c)
-        elif c not in seen:
-            seen.add(c)
-            final.append(c)
-            model_line[c] = l
-    ctx.log("stage 1: %d sequences cut at the carve-out op, %d distinct sequences" % (ncarve, len(final)))
+                model_line[c] = l
+
+    # pass 1a: the model on the base candidates; it also names the state class each history ends in
+    m1 = run_sharded(lambda p: [mdl, p, "seq"], cands, ctx.workdir, "p1", HEADER)
+    absorb(cands, m1)
+    # representatives of the state classes (combinations of residues: expired equivalence entry, owner destroyed by kind,
+    # reset variable / units outside any model, emptied list, moved entity, object held only by its parent, ...), per
+    # start state the shortest history; from each of them every op form of F: the bad-argument product runs from
+    # history-made states, and the model predicts every answer
+    pure_set = set(pure)
+    reps = {}
+    for c, l in zip(cands, m1):
+        t = l.split()
+        if c in pure_set and len(t) >= 5 and t[1] == "carve=-" and "CRASH" not in t[0]:
+            key = (split_case(c)[0], t[3])
+            if key not in reps or len(c) < len(reps[key]):
+                reps[key] = c
+    extra = []
+    for key in sorted(reps):
+        tag, ops = split_case(reps[key])
+        rel = [o for o in setup_of(tag) if o.startswith("release")]
+        extra += [join_case(tag, ops + [f]) for f in F if not g.uses_released(rel + ops + [f])]
+    exh["state-class representatives x F"] = len(extra)
+    extra += rnd
+    absorb(extra, run_sharded(lambda p: [mdl, p, "seq"], extra, ctx.workdir, "p1b", HEADER))
+    classes = sorted({k[1][4:] for k in reps})
+    ctx.log("stage 1: %d state classes (%d representatives), %d sequences cut at the carve-out op, %d distinct sequences" %
+            (len(classes), len(reps), stat["carve"], len(final)))
+    cands = cands + extra
 
     impl = run_sharded(lambda p: [drv, "seq", p], final, ctx.workdir, "p2c", HEADER)
     for c, l in zip(recut, run_sharded(lambda p: [mdl, p, "seq"], recut, ctx.workdir, "p2m", HEADER) if recut else []):
         model_line[c] = l
     modl = [model_line[c] for c in final]
     bad = []
+    nbadarg = 0
     nontrivial = 0
     hist = {"ops": 0, "succeeded": 0, "refused": 0, "carve_out_final_op": 0, "len": {}}
     opk = {}
@@ -355,8 +393,9 @@ def stage1(ctx, drv, mdl):
         xs, ys = x.split(), y.split()
         setup, ops = split_case(c)
         hist["len"][len(ops)] = hist["len"].get(len(ops), 0) + 1
-        ok = len(xs) == 3 and len(ys) == 3 and xs[0] == ys[0] and xs[2] == ys[2]
+        ok = len(xs) == 3 and len(ys) == 5 and xs[0] == ys[0] and xs[2] == ys[2]
         if ok:
+            nbadarg += int(ys[4][4:])
             carve = None if ys[1] == "carve=-" else int(ys[1][6:])
             if xs[1] != "wf=ok":
                 k = int(xs[1][3:].split(":")[0])
@@ -435,6 +474,8 @@ def stage1(ctx, drv, mdl):
     ctx.log("stage 1: frame oracle on %d op applications of %d sequences" % (nfr, len(fr)))
     return {"candidates": len(cands), "exhaustive_sets": exh, "random": nrand, "distinct_sequences": len(final),
             "nontrivial": nontrivial, "hist": hist, "op_kinds": opk, "frame_checked_ops": nfr,
+            "state_classes": classes, "class_representatives": {"%s %s" % k: v for k, v in sorted(reps.items())},
+            "bad_argument_applications": nbadarg,
             "samples": [final[len(final) // 3], final[-1]]}
 
 
@@ -452,14 +493,20 @@ def run(ctx):
     s2 = ba.stage2(ctx, drv)
     ctx.cov["distinct_nontrivial"] = s1["nontrivial"] + s2["nontrivial"]
     ctx.cov["exhaustive"] = True
-    ctx.cov["rule"] = ("stage 1: op sequences over the universe %s from the start states %s; exhaustive: every sequence of 2 ops of the reduced "
-                       "set R followed by every op form of F, and R^n (n per start state, see input_distribution); random to length 60; "
+    ctx.cov["rule"] = ("stage 1: op sequences (mutators AND queries) over the universe %s from the start states %s; exhaustive: every reduced op of R "
+                       "followed by every op form of F, all sequences of at most n ops of R (n per start state, see input_distribution), and from "
+                       "the shortest history of every state class (combination of residues: expired equivalence entry, destroyed owner by kind, "
+                       "reset variable / units outside any model, emptied list, moved entity, object held only by its parent, live equivalence; "
+                       "classes computed from the extracted model's states) every op form of F incl. null / one past the end / unknown name / not-a-child "
+                       "arguments; random to length 60; bad_argument_applications = ops the model's bad_arg classifies as refusals (theorem C09_bad_arg_noop), "
+                       "all confirmed on the library; "
                        "after EVERY op: return token + full parent/children/equivalence snapshot compared exactly with the model, WF evaluated "
                        "on the real objects, frame oracle on the real snapshots.  non-trivial = at least one op of the sequence was performed "
                        "(not refused); distinct by sequence text after cutting at the carve-out op.  stage 2: see bad_arguments"
                        % (" ".join(g.UNIVERSE), [n for n, _ in g.START]))
     ctx.cov["samples"] = s1["samples"] + s2["samples"]
-    ctx.cov["input_distribution"] = {"histories": {k: s1[k] for k in ("candidates", "exhaustive_sets", "random", "distinct_sequences", "hist", "op_kinds", "frame_checked_ops")},
+    ctx.cov["input_distribution"] = {"histories": {k: s1[k] for k in ("candidates", "exhaustive_sets", "random", "distinct_sequences", "hist", "op_kinds", "frame_checked_ops",
+                                                                      "state_classes", "class_representatives", "bad_argument_applications")},
                                      "bad_arguments": s2["dist"]}
     ctx.cov["input_distribution"]["histories"]["start_states"] = {n: ";".join(ops) for n, ops in g.START}
     ctx.cov["traces_validated_against_impl"] = s1["distinct_sequences"]
